@@ -5,6 +5,7 @@ import copy
 import itertools
 import json
 import os
+import re
 import shutil
 from pathlib import Path
 
@@ -53,6 +54,8 @@ def gen_graph(rng, n_files=None):
         for _ in range(20):
             d = rng.choice(DIRS)
             nm = rng.choice(names_pool) + ("" if rng.random() < 0.6 else str(i))
+            if rng.random() < 0.12:
+                nm = rng.choice(["p q", "p v2", "r s t", "b\\c"])      # a blank / a backslash in the file name (next to p, r, b)
             ext = ".json" if rng.random() < pj else ""
             rel = os.path.join(d, nm + ext) if d else nm + ext
             if rel not in used:
@@ -122,7 +125,14 @@ def render(f, selfref_key=None) -> str:
         out.update(c)
         return json.dumps(out, indent=1)
     body = dictIO.NativeFormatter().to_string(c)
-    lines = [f"#include '{inc}'" for inc in f["includes"]]
+    def directive(inc):
+        # spellings of one directive: single quotes, double quotes, and no quotes where the name is a single word
+        q = sum(map(ord, inc + f["rel"])) % 4
+        if q == 0 and re.fullmatch(r"[\w./\\-]+", inc):
+            return f"#include {inc}"
+        return f'#include "{inc}"' if q == 1 else f"#include '{inc}'"
+
+    lines = [directive(inc) for inc in f["includes"]]
     # a line comment and a block comment per native file (exercise comments on/off through the include chain)
     tag = f["rel"].replace("/", "_")
     return "\n".join(lines) + ("\n" if lines else "") + f"// comment of {tag}\n" + body + f"/* block of {tag} */\n"
